@@ -526,11 +526,12 @@ class Interp:
             raise OutOfReach(f"symbolic loop without a loop rule: {qual} loop {ordinal}")
         c = cur()
         mods = assigned_names(s.body) | ({s.target.id} if isinstance(s, ast.For) and isinstance(s.target, ast.Name) else set())
-        undeclared = {m for m in mods if m not in rule.modifies and self._is_live(m, fr)}
-        if isinstance(s, ast.For) and isinstance(s.target, ast.Name):
-            undeclared.discard(s.target.id)
-        if undeclared - set(getattr(rule, "locals_ok", ())):
-            raise OutOfReach(f"loop {qual}#{ordinal} modifies {sorted(undeclared)} not covered by the loop rule")
+        unmanaged = {m for m in mods if m not in rule.modifies}
+
+        def scrub():
+            # variables assigned in the body but not described by the invariant are unknown afterwards
+            for nme in unmanaged:
+                fr.vars[nme] = Opaque(f"loop-local {nme}")
         where0 = c.where
         if rng is not None:
             start, stop = rng.start, rng.stop
@@ -545,12 +546,12 @@ class Interp:
             # state after the loop ran to completion: invariant at k = stop (or start if empty)
             if rng is not None:
                 kx = sym.smax(start, stop)
+                scrub()
                 rule.havoc(self, fr, kx)
-                if isinstance(s.target, ast.Name) and not (isinstance(start, int) and isinstance(stop, int) and stop <= start):
-                    fr.vars[s.target.id] = kx - 1   # value after the last iteration (if any)
             else:
                 kx = SInt.var(c.fresh_name("kexit"))
                 c.assume(kx >= 0)
+                scrub()
                 rule.havoc(self, fr, kx)
                 cond = self.eval(s.test, fr)
                 c.assume(snot(cond) if isinstance(cond, SBool) else (not cond))
@@ -562,6 +563,7 @@ class Interp:
         c.assume(k >= start)
         if rng is not None:
             c.assume(k < stop)
+        scrub()
         rule.havoc(self, fr, k)
         if rng is not None:
             self.assign(s.target, k, fr)
@@ -699,6 +701,9 @@ class Interp:
                 if v != v or v in (float("inf"), float("-inf")):
                     return v
                 return Fraction(repr(v))
+            if isinstance(v, complex):
+                from .idx import CScal
+                return CScal(Fraction(repr(v.real)), Fraction(repr(v.imag)))
             return v
         if t is ast.Name:
             return self.lookup(e.id, fr)
